@@ -175,7 +175,7 @@ class SessionRec:
 
 
 def _session_wrap(cls, name):
-    orig = cls.__dict__[name]
+    orig = cls.__dict__.get(name) or getattr(cls, name)
 
     @functools.wraps(orig)
     def wrapper(self, *args, **kwargs):
@@ -280,7 +280,7 @@ def _linear_rec(obj):
 
 
 def _linear_call_wrap(cls, name):
-    orig = cls.__dict__[name]
+    orig = cls.__dict__.get(name) or getattr(cls, name)
     dir_ = "fwd" if name == "forward" else "inv"
 
     @functools.wraps(orig)
@@ -323,7 +323,8 @@ def _linear_call_wrap(cls, name):
 
 
 def _linear_simple_wrap(cls, name, make_event):
-    orig = cls.__dict__[name]
+    # (a class that does not define the method itself inherits it: wrap what attribute lookup finds)
+    orig = cls.__dict__.get(name) or getattr(cls, name)
 
     @functools.wraps(orig)
     def wrapper(self, *args, **kwargs):
@@ -350,7 +351,7 @@ def _linear_simple_wrap(cls, name, make_event):
 
 # ------------------------------------------------------------------------------------ made
 def _made_wrap(cls, copy_name):
-    orig = cls.__dict__["__init__"]
+    orig = cls.__dict__.get("__init__") or cls.__init__
 
     @functools.wraps(orig)
     def wrapper(self, *args, **kwargs):
